@@ -351,7 +351,7 @@ class TestCase(unittest.TestCase):
             className = ", ".join(klass.__name__ for klass in classOrIterable)
         return className
 
-    def addCleanup(self, function, *arguments, **keywordArguments):
+    def addCleanup(self, function, /, *arguments, **keywordArguments):
         """Add a cleanup function to be called after tearDown.
 
         Functions added with addCleanup will be called in reverse order of
